@@ -1,7 +1,7 @@
 (* C12 - Gap filling yields a contiguous series of flat, zero-volume candles. *)
 From Coq Require Import ZArith List Bool.
 From Hexital Require Import Base.Prelude Base.Num Model.Manager Model.Candle
-  Proofs.CollapseProofs Proofs.FillProofs Proofs.FillCompose Proofs.PipelineProofs Proofs.FillEngine Proofs.FillHA.
+  Proofs.CollapseProofs Proofs.FillProofs Proofs.FillCompose Proofs.PipelineProofs Proofs.FillEngine Proofs.FillHA Proofs.TrimCompose Proofs.FillTrim.
 Import ListNotations.
 Local Open Scope Z_scope.
 
@@ -89,3 +89,12 @@ Theorem C12_schedule_independent_with_heikin_ashi :
   mgr_append O (tf_fill_ha_cfg tf) D ys = tasks O (tf_fill_ha_cfg tf) (xs ++ ys).
 Proof. intros O tf xs ys D Htf Hs Hp HD. eapply manager_fill_ha_incremental; eassumption. Qed.
 Print Assumptions C12_schedule_independent_with_heikin_ashi.
+
+(* ... and with a lifespan: the filled window is the same for every append schedule *)
+Theorem C12_schedule_independent_with_lifespan :
+  forall (O : NumOps) (tf ls : Z) (xs ys D : list (cd (payload O))),
+  0 < tf -> 0 <= ls -> sorted (payload O) (xs ++ ys) ->
+  tasks O (tf_fill_life_cfg tf ls) xs = Ok D ->
+  mgr_append O (tf_fill_life_cfg tf ls) D ys = tasks O (tf_fill_life_cfg tf ls) (xs ++ ys).
+Proof. intros O tf ls xs ys D Htf Hls Hs HD. eapply manager_fill_lifespan_incremental; eassumption. Qed.
+Print Assumptions C12_schedule_independent_with_lifespan.
